@@ -47,7 +47,7 @@ pub fn edit_text(rng: &mut SplitMix, text: &mut String) {
             // meaning depends on their position (markers, escapes) — the append heuristic of
             // MultiPattern::reparse has to get exactly these right
             if rng.below(3) == 0 {
-                text.push_str(pick(rng, &["$", "\\", "\\$", " ", "\\ ", "!", "^", "'", "$$", "\\$$"]));
+                text.push_str(pick(rng, &["$", "$", "$", "\\", "\\$", " ", "\\ ", "!", "^", "'", "$$", "\\$$"]));
             } else {
                 for _ in 0..1 + rng.below(3) {
                     if rng.below(16) == 0 {
@@ -102,7 +102,37 @@ fn haystacks_for(text: &str, out: &mut Vec<String>) {
         }
         let core = raw.trim_start_matches(['!', '^', '\'']).trim_end_matches('$');
         let unescaped = raw.replace("\\$", "$").replace("\\ ", " ").replace('\\', "");
-        for c in [raw.to_string(), core.to_string(), unescaped.clone(), format!("{core}a"), format!("b{core}"), format!("{unescaped} "), format!(" {raw}")] {
+        // the next three make the haystack non-ASCII (the matcher's char-slice paths) with the needle,
+        // or its accented twin, at the very end
+        let accented: String = {
+            let mut cs: Vec<char> = core.chars().collect();
+            if let Some(l) = cs.last_mut() {
+                *l = match *l {
+                    'a' => 'ä',
+                    'A' => 'Ä',
+                    'e' => 'é',
+                    'c' => 'ç',
+                    o => o,
+                };
+            }
+            cs.into_iter().collect()
+        };
+        for c in [
+            raw.to_string(),
+            core.to_string(),
+            unescaped.clone(),
+            format!("{core}a"),
+            format!("b{core}"),
+            format!("{unescaped} "),
+            format!(" {raw}"),
+            format!("é{core}"),
+            format!("漢 {unescaped}"),
+            format!("b{accented}"),
+            // exact atoms ignore surrounding whitespace: a haystack the exact kind accepts and the
+            // substring kind has to find at its very end
+            format!(" {accented}"),
+            format!("  {core}"),
+        ] {
             if !c.is_empty() && c.chars().count() <= 12 && !out.contains(&c) {
                 out.push(c);
             }
